@@ -34,7 +34,9 @@ func (g *cgen) pick(xs ...string) string { return xs[g.r.Intn(len(xs))] }
 
 func (g *cgen) body(n int) []byte {
 	b := make([]byte, n)
-	switch g.r.Intn(5) {
+	switch g.r.Intn(8) {
+	case 5, 6, 7: // dense in the rare branches of the x86 branch filter (dense.go)
+		return denseBytes(g.r, []string{"hib", "alpha", "dense", "enum", "hib"}[g.r.Intn(5)], n)
 	case 0:
 		for i := range b {
 			b[i] = 0xFF
